@@ -24,4 +24,22 @@ CHECKS = {
         "text": "Concurrent writers (one per source) and readers run against the real repository compiled with -race and with scheduler-perturbing lock shims; every recorded history is checked for linearizability against a register-per-source model, a quiescent final-state check detects lost/partial updates, lock-order inversions are detected from the shim's acquisition graph, and crashes/race reports are taken from the child process. Held on the interleavings produced (overlap counts in evidence).",
         "note": "Each source has a single writer (as providers do). Race freedom only on interleavings produced. Lock shims are a mechanical textual replacement of sync.Mutex/RWMutex in the current repository_impl.go; if the file no longer declares such locks the run is un-instrumented (recorded in evidence).",
     },
+    "C01": {
+        "level": "exploration",
+        "technique": "runtime monitoring: probe-mechanism trace (ground truth per step) + independent pipeline model over the three assembled services; upstream hit counter",
+        "text": "Generated pipelines (probe and real mechanisms, `if` conditions driven to true/false/evaluation error, continue-on-error, fallback, 11 error-pipeline shapes, default rule, partial rules) run in fx-assembled decision, Envoy gRPC and proxy services; for each rule all-ok, every single deviating step x outcome x condition state, failing step x error-pipeline state and random plans are sent. A positive answer must be justified by the recorded step trace and by an independent pipeline model; non-positive answers must have a non-2xx status and no upstream hit. Held on the requests executed.",
+        "note": "Trusts the probe/recording wrappers at the exported MechanismFactory seam and the ~60-line pipeline model; probe error handlers honour the error-handler contract. A request the model expects to pass but which is denied makes the run inconclusive (exit 2), not a violation.",
+    },
+    "C09": {
+        "level": "exploration",
+        "technique": "runtime monitoring: differential oracle (same request with vs without forwarded headers) on the real handler chain with arbitrary peer addresses + small override model for trusted peers",
+        "text": "In-package harnesses drive the real decision and proxy handler chains (newService(...).Handler with the real rule executor) with generated trusted_proxies lists, peer addresses (in-process arbitrary RemoteAddr, real loopback and link-local sockets) and every subset of forwarded headers; an untrusted peer's request must be observably identical to the same request without those headers, and nothing client supplied may reach the upstream; trusted peers override exactly their component. Held on the requests executed.",
+        "note": "Trust is decided by the oracle's own net/netip reading; reading-dependent peers (IPv4-mapped, zoned, missing port) accept either behaviour; X-Forwarded-Path overrides nothing (support was removed upstream). In-package files use unexported identifiers (newService); a build failure is reported as inconclusive.",
+    },
+    "C14": {
+        "level": "exploration",
+        "technique": "runtime monitoring: exhaustive small-scope enumeration of default-rule x rule definitions, probe trace of executed mechanisms vs stage-wise inheritance model",
+        "text": "All 17 default-rule shapes x 2 modes x every subset of the four stages (also defined only by a conditional step) x backtracking {unset,true,false} x forward_to {present,absent}, every ordering of <=4 step kinds, unknown ids, bad overrides and malformed conditions are loaded one rule per rule set through the real processor/factory; accepted rules are executed through the real executor and the probe trace is compared with the stage-wise model, backtracking is observed against a less specific companion rule. Exhaustive for the enumerated space.",
+        "note": "Empty execute lists are not generated (rejected earlier by rule-set validation). Probes stand in for real mechanisms; only ids/order of executed mechanisms are compared.",
+    },
 }
